@@ -11,4 +11,5 @@ CONSTANTS
   Pres = "one"
   MaxArea = 2097152
 INVARIANTS Refines
+CONSTRAINT AreaConstraint
 CHECK_DEADLOCK FALSE
